@@ -1316,6 +1316,10 @@ def generate(rng, seed, tier='quick'):
             if rng.random() < 0.3:
                 op['key_locator'] = rng.choice(['x', 'y'])
             ops.append(op)
+            if 'key_locator' in op and shape in ('key', 'key_obj', 'identity', 'cert') and rng.random() < 0.5:
+                # ... and right afterwards the same key locator is asked for with ANOTHER key
+                ops.append({'op': 'get_signer', 'shape': rng.choice(['key', 'key_obj']), 'id': rng.choice(ids),
+                            'key': op['key'] + rng.randint(1, 3), 'cert': rng.randint(0, 9), 'key_locator': op['key_locator']})
         elif x < 0.955:
             ops.append({'op': 'probe_deleted_signer', 'key': rng.randint(0, 7)})
         elif x < 0.98:
